@@ -279,6 +279,7 @@ func c07Addresses() *core.Space {
 				ops[d[0]].Do(c, names[d[1]], idxs[d[2]], optSets[d[3]])
 				if n := c20MaxList(c); int64(n) > maxIdxOf[d[3]]+1 {
 					tooLong = n
+					return
 				}
 				// the config is still usable
 				var m map[string]interface{}
